@@ -69,6 +69,8 @@ def let(name, v, force=False):
                 continue          # without a numeric probe nothing is shared (sharing is only an optimisation)
             p = T.eq_poly(v, v0)
             if p is not None and _cert.check_identity(p, 3000):
+                if v0 is not v:
+                    c.memo.setdefault('letalias', {}).setdefault(s0.z.get_id(), []).append(v)
                 return s0
         if speculative:
             return v          # proof hints never introduce names, they only re-use existing ones
@@ -77,6 +79,7 @@ def let(name, v, force=False):
         s = T.real(nm, numdef=lambda env: T.numeval(zv, env))
         c.assume(T.Eq(s, v))
         table.append((v, s, val))
+        c.memo.setdefault('letdefs', {})[s.z.get_id()] = v
         return s
     if isinstance(v, SArr):
         changed = False
